@@ -848,7 +848,8 @@ def corr_fs(chk: C.Check, root: Path, stats: dict[str, Any]) -> list[dict[str, A
     for name in ("a.html", "sub/b.html", "zz.html", "../a.html", "sub/../a.html"):
         def obs(src: Any) -> Any:
             cb = src.uptodate
-            return (src.source, src.name, cb.func.__name__.endswith("_async"), int(cb.args[1]), str(cb.args[0]))
+            # partial(_is_current[_async], template_name, source_path, mtime)
+            return (src.source, src.name, cb.func.__name__.endswith("_async"), int(cb.args[-1]), str(cb.args[-2]))
         outs = (outcome(lambda: obs(loader.get_source(env, name))), outcome(lambda: obs(arun(loader.get_source_async(env, name)))))
         stats["small_cases"] += 2
         if (outs[0][0] != outs[1][0]) or (outs[0][0] == "ok" and (outs[0][1][:2] + outs[0][1][3:]) != (outs[1][1][:2] + outs[1][1][3:])) \
@@ -902,8 +903,39 @@ def corr_fs(chk: C.Check, root: Path, stats: dict[str, Any]) -> list[dict[str, A
         if outs[0] != outs[1]:
             chk.finding("sync-async:FileSystemLoader._uptodate", f"{label}: {outs}", {"state": label, "outs": outs})
         sm = {"same": "(fun _ => Ok 1000001)", "touched": "(fun _ => Ok 1000009)", "deleted": "(fun _ => PyExc OSError)"}[label]
-        for fn, o in zip(("fs_uptodate", "fs_uptodate_async"), outs):
+        # the callback is _is_current since /repo e2f7d6d: the name must still resolve to the same path
+        rpc = "(fun _ => LErr TemplateNotFoundError None)" if label == "deleted" else f"(fun _ => Ok {C.cstr(str(p))})"
+        for fn, o in zip(("fs_is_current", "fs_is_current_async"), outs):
+            model = f"{fn} {rpc} {sm} {C.cstr('a.html')} {C.cstr(str(p))} 1000001"
+            items.append({"case": f"res_eqb_nopos Bool.eqb ({model}) {c_res(o, C.cbool, True)}", "model": model,
+                          "replay": {"fn": fn, "state": label, "real": o}})
+        for fn in ("fs_uptodate", "fs_uptodate_async"):
+            direct = outcome(lambda: type(loader)._uptodate(p, 1_000_001)) if fn == "fs_uptodate" else outcome(lambda: arun(type(loader)._uptodate_async(p, 1_000_001)))
             model = f"{fn} {sm} {C.cstr(str(p))} 1000001"
+            items.append({"case": f"res_eqb_nopos Bool.eqb ({model}) {c_res(direct, C.cbool, True)}", "model": model,
+                          "replay": {"fn": fn, "state": label, "real": direct}})
+    # a file added to an earlier search path shadows the one that was loaded, its removal un-shadows it
+    d0 = base.parent / "fsl_front"
+    d0.mkdir(exist_ok=True)
+    p = base / "a.html"
+    p.write_text("A")
+    os.utime(p, (1_000_001, 1_000_001))
+    loader2 = FileSystemLoader([d0, base])
+    env2 = Environment(loader=loader2)
+    s_src = loader2.get_source(env2, "a.html")
+    a_src = arun(loader2.get_source_async(env2, "a.html"))
+    for label in ("unshadowed", "shadowed", "unshadowed-again"):
+        if label == "shadowed":
+            (d0 / "a.html").write_text("FRONT")
+        elif label == "unshadowed-again":
+            (d0 / "a.html").unlink()
+        outs = (outcome(s_src.uptodate), outcome(lambda: arun(a_src.uptodate())))
+        stats["small_cases"] += 2
+        if outs[0] != outs[1]:
+            chk.finding("sync-async:FileSystemLoader._is_current", f"{label}: {outs}", {"state": label, "outs": outs})
+        now = str(d0 / "a.html") if label == "shadowed" else str(p)
+        for fn, o in zip(("fs_is_current", "fs_is_current_async"), outs):
+            model = f"{fn} (fun _ => Ok {C.cstr(now)}) (fun _ => Ok 1000001) {C.cstr('a.html')} {C.cstr(str(p))} 1000001"
             items.append({"case": f"res_eqb_nopos Bool.eqb ({model}) {c_res(o, C.cbool, True)}", "model": model,
                           "replay": {"fn": fn, "state": label, "real": o}})
     return items
